@@ -114,10 +114,14 @@ def _r6(ctx):
                 test, pol = test.left, (pol if isinstance(test.ops[0], ast.IsNot) else not pol)
             else:
                 break
+        # `k in D` / `k not in D` (read from the syntax tree: the text `knotinD` also ends in `inD`)
+        if isinstance(test, ast.Compare) and len(test.ops) == 1 and isinstance(test.ops[0], (ast.In, ast.NotIn)) and isinstance(test.comparators[0], ast.Name) \
+                and re.fullmatch(D, test.comparators[0].id) and isinstance(test.left, ast.Name):
+            return pol if isinstance(test.ops[0], ast.NotIn) else not pol
         t = ast.unparse(test).replace(" ", "")
-        if re.fullmatch(rf"{D}\.get\(\w+\)", t) or re.fullmatch(rf"\w+in{D}", t):
+        if re.fullmatch(rf"{D}\.get\(\w+\)", t):
             return not pol
-        if re.fullmatch(rf"\w+notin{D}", t) or re.fullmatch(rf"not{D}\.get\(\w+\)", t):
+        if re.fullmatch(rf"not{D}\.get\(\w+\)", t):
             return pol
         return False
 
